@@ -40,8 +40,9 @@ def digit_char(dv):
     return z3.simplify(z3.If(z3.ULT(dv, 10), dv + 48, dv + 87))
 
 
-def int_digits(it, mag, radix):
-    """magnitude (unsigned BV or python int) -> list of (char term, 1), most significant first"""
+def int_digits(it, mag, radix, ndigits=None):
+    """magnitude (unsigned BV or python int) -> list of (char term, 1), most significant first.
+    ndigits: the caller has already decided the number of digits (on a cheaper representation of the same value)"""
     if not is_sym(mag):
         s = ''
         m = mag
@@ -57,10 +58,12 @@ def int_digits(it, mag, radix):
     maxd = 1
     while radix ** maxd < (1 << w): maxd += 1
     n = maxd
-    for k in range(1, maxd):
-        if radix ** k >= (1 << w): break
-        if it.branch(z3.ULT(mag, z3.BitVecVal(radix ** k, w))):
-            n = k; break
+    if ndigits is not None: n = ndigits
+    else:
+        for k in range(1, maxd):
+            if radix ** k >= (1 << w): break
+            if it.branch(z3.ULT(mag, z3.BitVecVal(radix ** k, w))):
+                n = k; break
     W = horner_width(n, radix)
     tag = '%d_%d' % (len(it.taken), it.fresh_n); it.fresh_n += 1
     dvs = [z3.BitVec('dig%d_%s' % (i, tag), 32) for i in range(n)]
@@ -174,6 +177,82 @@ def write_ratio(it, f, r, kind, ty='i32'):
     pad_write(f, sub.out)
 
 
+F64 = z3.Float64()
+TWO63 = 9223372036854775808.0
+
+
+def write_f64(it, f, v, kind):
+    """std formatting of a double.  Library facts used as AXIOMS (not decided here): `{}` and `{:e}` print the shortest
+    digit string that parses back to the same double; `{:.1}` of an integer-valued double prints its exact decimal
+    expansion followed by ".0".  Encoding: an integer-valued double below 2^63 in magnitude under `{:.1}` is printed
+    through the integer printer (symbolic-length digits) + ".0"; every other case is a SKELETON text
+    [-] d . d  or  [-] d e d  (fresh digit chars) that is registered as a spelling of v: it keeps the character
+    classes that the lexer and the parser chain look at, and the float parser returns v for it."""
+    prec = f.spec.get('precision')
+    if not is_sym(v):
+        if v != v: text = 'NaN'
+        elif v in (float('inf'), float('-inf')): text = 'inf' if v > 0 else '-inf'
+        elif kind == 'lowerexp':
+            m, e = ('%.17e' % v).split('e'); text = None
+            for p_ in range(0, 18):
+                t = '%.*e' % (p_, v)
+                if float(t) == v:
+                    m, e = t.split('e'); text = m + 'e' + str(int(e)); break
+        elif prec is not None: text = '%.*f' % (prec, v)
+        else:
+            text = repr(float(v))
+            if 'e' in text or 'E' in text:
+                from decimal import Decimal
+                text = format(Decimal(text), 'f')
+            if text.endswith('.0') and False: pass
+            if '.' not in text and 'n' not in text: text += ''
+            if text.endswith('.0'): text = text[:-2]
+        pad_write(f, [(ord(c), 1) for c in text]); return
+    if it.branch(z3.Or(z3.fpIsNaN(v), z3.fpIsInf(v))): raise Unsupported('formatting a non-finite symbolic double')
+    out = []
+    neg = it.branch(z3.fpIsNegative(v))
+    if neg: out.append((ord('-'), 1))
+    a = z3.fpAbs(v)
+    if kind == 'display' and prec == 1 and it.branch(z3.fpLT(a, z3.FPVal(TWO63, F64))):
+        # a decision (not a `must`): decided once, replayed paths reuse it (the query costs seconds)
+        if not it.branch(z3.fpEQ(z3.fpRoundToIntegral(z3.RTZ(), a), a)): raise Unsupported('{:.1} of a double that is not integer-valued')
+        mag = z3.fpToUBV(z3.RTZ(), a, z3.BitVecSort(64))
+        nd = 19
+        for k in range(1, 19):                      # digit count decided on the double (10^k is exact up to 10^22): no conversion circuit per comparison
+            if it.branch(z3.fpLT(a, z3.FPVal(float(10 ** k), F64))):
+                nd = k; break
+        out += int_digits(it, mag, 10, ndigits=nd) + [(ord('.'), 1), (ord('0'), 1)]
+        it.ghost.setdefault('_f64int', {})[mag.get_id()] = (mag, a, v, neg)
+        pad_write(f, out); return
+    skel = it.ghost.setdefault('_f64skel', {})
+    sk = (v.get_id(), kind, prec)
+    if sk in skel:
+        pad_write(f, list(skel[sk][1])); return          # the same double printed again: the same spelling
+    tag = '%d_%d' % (len(it.taken), it.fresh_n); it.fresh_n += 1
+    d1 = z3.BitVec('fdig1_' + tag, 32); d2 = z3.BitVec('fdig2_' + tag, 32)
+    it.assume(z3.And(z3.UGE(d1, 48), z3.ULE(d1, 57), z3.UGE(d2, 48), z3.ULE(d2, 57)))
+    it.char_info[d1.get_id()] = 1; it.char_info[d2.get_id()] = 1
+    if kind == 'lowerexp':
+        # the exponent is negative exactly for 0 < |v| < 1 (library fact): the '-' matters to the lexer
+        small = it.branch(z3.And(z3.fpLT(a, z3.FPVal(1.0, F64)), z3.Not(z3.fpIsZero(a))))
+        body = [(d1, 1), (ord('e'), 1)] + ([(ord('-'), 1)] if small else []) + [(d2, 1)]
+    else:
+        body = [(d1, 1), (ord('.'), 1), (d2, 1)]
+    out += body
+    it.ghost.setdefault('_f64text', []).append(([c for c, _ in out], v, out))
+    skel[sk] = (v, list(out))
+    pad_write(f, out)
+
+
+def f64_spelling(it, cs):
+    """the double whose registered spelling is exactly this text, else None"""
+    for chars, v, keep in it.ghost.get('_f64text', []):
+        if len(chars) != len(cs): continue
+        if all((is_sym(x) and is_sym(y) and x.get_id() == y.get_id()) or ((not is_sym(x)) and (not is_sym(y)) and x == y) for x, (y, _) in zip(chars, cs)):
+            return v
+    return None
+
+
 def parse_int(it, cs, radix, ty):
     """<int>::from_str_radix -> Result<int, ParseIntError>"""
     w, sg = INT_TYPES[ty]
@@ -245,13 +324,15 @@ def install(prog):
         if getattr(it.prog, 'numfmt_skeleton', False) and (isinstance(v, Big) or (isinstance(v, Agg) and v.ty == 'Ratio') or (is_sym(v) and (z3.is_bv(v) or z3.is_fp(v))) or isinstance(v, float)):
             # panic-freedom harnesses: the std number printers cannot panic and the text is not judged -- one fixed digit
             pad_write(f, [(ord('7'), 1)]); return True
-        if kind not in ('display', 'lowerhex', 'octal', 'binary', 'debug'): return False
+        if kind not in ('display', 'lowerhex', 'octal', 'binary', 'debug', 'lowerexp'): return False
         if isinstance(v, Big):
             write_big(it, f, v, kind); return True
         if isinstance(v, Agg) and v.ty == 'Ratio':
             write_ratio(it, f, v, kind); return True
         if ty in INT_TYPES and (is_sym(v) and z3.is_bv(v) or (isinstance(v, int) and not isinstance(v, bool))):
             write_int(it, f, v, ty, kind); return True
+        if kind in ('display', 'lowerexp') and ((is_sym(v) and z3.is_fp(v)) or isinstance(v, float)) and getattr(it.prog, 'model_f64_text', False):
+            write_f64(it, f, v, kind); return True
         return False
     prog.numfmt = numfmt
 
@@ -353,6 +434,25 @@ def install(prog):
             except ValueError:
                 return err('Invalid')
         if radix == 10:
+            v = f64_spelling(it, cs)
+            if v is not None: return mk_ok(v)
+            # [-] digits [ ".0" ]: the correctly rounded value of an integer literal
+            body = cs[1:] if (cs and is_char(it, cs[0][0], '-')) else cs
+            neg = len(body) != len(cs)
+            tail0 = len(body) >= 3 and (not is_sym(body[-2][0])) and body[-2][0] == ord('.') and (not is_sym(body[-1][0])) and body[-1][0] == ord('0')
+            digs = body[:-2] if tail0 else body
+            if digs and all(known_digit(it, deref(c), 10) is not None for c, _ in digs):
+                dvs = [known_digit(it, deref(c), 10) for c, _ in digs]
+                V = horner(dvs, 10, horner_width(len(dvs), 10))
+                V, hit = horner_value(it, V)
+                if hit and V.size() == 64:
+                    x = z3.fpUnsignedToFP(z3.RNE(), V, F64) if hasattr(z3, 'fpUnsignedToFP') else z3.fpToFPUnsigned(z3.RNE(), V, F64)
+                    e = it.ghost.get('_f64int', {}).get(V.get_id())
+                    if e is not None:
+                        # printed from this very double: |v| = to_fp(to_ubv(|v|)) for an integer-valued |v| < 2^63
+                        if e[3] == neg: return mk_ok(e[2])
+                        x = e[1]
+                    return mk_ok(z3.fpNeg(x) if neg else x)
             # str::parse::<f64>: decide the SYNTAX on the character classes (forking on symbolic chars); the value of an
             # accepted literal is an arbitrary double
             cls = ''
